@@ -162,6 +162,11 @@ Theorem C16_xml_marker_sound : forall L C U,
         pdec shape_src L C U (S k) sc t nillable (XElt ns n atts txt kids) = VFault).
 Proof. exact xml_sound_main. Qed.
 
+(** get_subclasses, the list a wrapper key is looked up in, holds every strict subclass at any depth *)
+Theorem C16_subclasses_closure : forall U c d cl, wf_universe U = true -> get_cls U d = Some cl ->
+  is_subclass U d c = true -> d <> c -> In d (get_subclasses (S (length U)) U c).
+Proof. exact subclasses_closure_main. Qed.
+
 (** dict documents (JSON / YAML / MessagePack, ignore_wrappers=False), polymorphic or not: a
     conformant value is written under class-name wrapper keys and read back as the same value
     with the same runtime class at every position *)
